@@ -118,6 +118,11 @@ func genC06(r *rt.Rand, tier string, idx int) *world.Scenario {
 	if compactions {
 		sc.Class = "list-watch-with-writers-and-compaction"
 	}
+	if idx%10 == 6 {
+		// frequent iterator errors: a list may fail, a list that is answered must still be right
+		sc.Class += "+read-errors"
+		sc.Rates.ReadErr = 0.1 + 0.6*r.Float64()
+	}
 	prefixes := []string{prefix + "/", prefix + "/a", prefix + "/pods/"}
 	for c := 0; c < 1+r.Intn(2); c++ {
 		p := prefixes[r.Intn(len(prefixes))]
